@@ -2,8 +2,8 @@ package sym
 
 import (
 	"fmt"
-	"os"
 	"go/types"
+	"os"
 	"strings"
 
 	"golang.org/x/tools/go/ssa"
@@ -21,26 +21,30 @@ func (e *Engine) boolType() types.Type { return types.Typ[types.Bool] }
 
 func init() {
 	stubs = map[string]stubFn{
-		"fmt.Errorf":               stubErrorf,
-		"fmt.Sprintf":              stubSprintf,
-		"fmt.Fprintf":              stubFprintf,
-		"fmt.Sprint":               stubSprint,
-		"fmt.Println":              stubNop,
-		"fmt.Printf":               stubNop,
-		"log.Printf":               stubNop,
-		"log.Println":              stubNop,
-		"errors.Is":                stubErrorsIs,
-		"errors.As":                stubErrorsAs,
-		"math.Ceil":                func(x *Exec, f *Closure, a []Value, cc *ssa.CallCommon) Value { return x.ctx.FPCeil(a[0].(*term.Term)) },
-		"math.Floor":               func(x *Exec, f *Closure, a []Value, cc *ssa.CallCommon) Value { return x.ctx.FPFloor(a[0].(*term.Term)) },
-		"math.Float32frombits":     stubIdent,
-		"math.Float32bits":         stubIdent,
-		"math.Float64frombits":     func(x *Exec, f *Closure, a []Value, cc *ssa.CallCommon) Value { return x.ctx.FPFromBits(a[0].(*term.Term)) },
-		"math.Float64bits":         stubFloat64bits,
-		"math/rand.Intn":           stubRandIntn,
-		"(*strings.Builder).Grow":  stubNop,
+		"fmt.Errorf":  stubErrorf,
+		"fmt.Sprintf": stubSprintf,
+		"fmt.Fprintf": stubFprintf,
+		"fmt.Sprint":  stubSprint,
+		"fmt.Println": stubNop,
+		"fmt.Printf":  stubNop,
+		"log.Printf":  stubNop,
+		"log.Println": stubNop,
+		"errors.Is":   stubErrorsIs,
+		"errors.As":   stubErrorsAs,
+		"math.Ceil":   func(x *Exec, f *Closure, a []Value, cc *ssa.CallCommon) Value { return x.ctx.FPCeil(a[0].(*term.Term)) },
+		"math.Floor": func(x *Exec, f *Closure, a []Value, cc *ssa.CallCommon) Value {
+			return x.ctx.FPFloor(a[0].(*term.Term))
+		},
+		"math.Float32frombits": stubIdent,
+		"math.Float32bits":     stubIdent,
+		"math.Float64frombits": func(x *Exec, f *Closure, a []Value, cc *ssa.CallCommon) Value {
+			return x.ctx.FPFromBits(a[0].(*term.Term))
+		},
+		"math.Float64bits":          stubFloat64bits,
+		"math/rand.Intn":            stubRandIntn,
+		"(*strings.Builder).Grow":   stubNop,
 		"(*strings.Builder).String": stubBuilderString,
-		"(*strings.Builder).Len":   func(x *Exec, f *Closure, a []Value, cc *ssa.CallCommon) Value { return x.strLen(x.builderGet(a[0])) },
+		"(*strings.Builder).Len":    func(x *Exec, f *Closure, a []Value, cc *ssa.CallCommon) Value { return x.strLen(x.builderGet(a[0])) },
 		"(*strings.Builder).WriteString": func(x *Exec, f *Closure, a []Value, cc *ssa.CallCommon) Value {
 			x.builderAppend(a[0], a[1].(Str))
 			return Tuple{x.strLen(a[1].(Str)), Iface{}}
@@ -53,9 +57,9 @@ func init() {
 			x.builderAppend(a[0], Str{Sym: true, R: []*term.Term{a[1].(*term.Term)}})
 			return Tuple{x.i64(1), Iface{}}
 		},
-		"strings.Cut": stubUnsupported,
+		"strings.Cut":                stubUnsupported,
 		RepoModule + "/packet.CRC16": stubCRC16,
-		"time.Sleep":  stubNop,
+		"time.Sleep":                 stubNop,
 	}
 	registerEnvStubs()
 }
